@@ -59,7 +59,7 @@ inductive Res (α : Type) where
   | ok : α → Res α
   | err : Res α
   | trap : Res α
-  deriving Repr
+  deriving Repr, DecidableEq
 
 /-- the indices `i` for which the translated map kernel runs its body, in Serial order.
     `ts`, `ti` are the compile-time defines OCCA_ARRAY_TILE_SIZE / OCCA_ARRAY_TILE_ITERATIONS;
